@@ -22,7 +22,7 @@ INT_TYPES = {"u8": (False, 8), "u16": (False, 16), "u32": (False, 32), "u64": (F
 # name -> (argument kinds, result type or None, consumes an oracle answer)
 EXTERNALS = {
     "mmap": ("ptr",), "munmap": ("i32",), "mprotect": ("i32",), "sysconf": ("i64",),
-    "__clear_cache": (None,), "read_bytes": ("bytes",), "copy_nonoverlapping": (None,),
+    "__clear_cache": (None,), "copy_nonoverlapping": (None,),
 }
 
 
@@ -607,6 +607,17 @@ class FnCompiler:
     def external(self, name, args, cx, discard=False):
         if not cx.effectful:
             raise Unsupported("external call in pure function")
+        if name == "copy_nonoverlapping" and len(args) == 3 and args[1][0] == "method" and args[1][2] == "as_mut_ptr":
+            # ptr::copy_nonoverlapping(src, buf.as_mut_ptr(), n): the local buffer receives n bytes of memory
+            tgt = args[1][1]
+            if tgt[0] != "path" or len(tgt[1]) != 1 or tgt[1][0] not in cx.env:
+                raise Unsupported("copy into a non-local buffer")
+            ln, t = cx.env[tgt[1][0]]
+            src, st = self.typed(args[0], cx, Ty("int", "usize"))
+            n, nt = self.typed(args[2], cx, Ty("int", "usize"))
+            v = cx.bind(f'Rt.extB "read_bytes" [Rt.Val.n (Int.ofNat {src}), Rt.Val.n (Int.ofNat {n})]', "read")
+            cx.let(ln, v)
+            return ("()", UNIT)
         vals = []
         for a in args:
             try:
